@@ -1121,7 +1121,7 @@ fn cmap_outside(driver: &Driver, seed: u64, n: u64, rep: &mut Report) {
     let mut reqs = vec![];
     let mut imps = vec![];
     // bytes that keep the text away from constructs other packages are repairing (form feed, `+`, literal strings)
-    let alphabet: &[u8] = b"<>[]0123456789ABCDEFabcdef \n\tbeginfchrax/%,.{}";
+    let alphabet: &[u8] = b"<>[]0123456789ABCDEFabcdef \n\tbeginfchrax/,.{}";
     for case in 0..n {
         let mut rng = Rng::derive(seed, "c19.cmap.outside", case);
         let (mut text, _, _) = gen_cmap_program(&mut rng);
